@@ -120,7 +120,7 @@ def setup(reg):
 
 class ParseSource(Contract):
     target = "pyab_experiment.utils.wraper_functions:parse_source"
-    props = ("C01", "C17", "C11", "C06")
+    props = ("C01", "C02", "C05", "C06", "C07", "C08", "C09", "C11", "C13", "C14", "C17")
     allow_any_exception = True
 
     def shapes(self):
@@ -195,7 +195,7 @@ def inv(checksum, run, accepted_is_none, accepted):
 
 class Recompile(Contract):
     target = "pyab_experiment.experiment_evaluator:ExperimentEvaluator.recompile"
-    props = ("C11", "C01", "C06", "C17")
+    props = ("C11", "C01", "C06", "C17", "C14", "C09", "C13", "C07")      # union over its clauses (used for in-subset / existence)
     allow_any_exception = True
 
     def shapes(self):
@@ -340,6 +340,8 @@ class Recompile(Contract):
             return ("C14", "C09", "C13", "C07")
         if name.startswith("ensures.switches-completely") or name.startswith("ensures.no-op") or name.startswith("ensures.invariant"):
             return ("C11", "C01")
+        if name.startswith("raises.") or name.startswith("ensures.returns") or kind in ("safety", "pre-callee"):
+            return ("C11",)
         if "deterministic" in name or "no-global" in name:
             return ("C01", "C11", "C17")
         if "writes-only" in name:
